@@ -94,7 +94,7 @@ def run(ctx):
                  ("C09_mc_fixed_small.cfg", 8, None, "repaired design, the other archives of <= 6 entries, every order"),
                  ("C09_mc_code_mid.cfg", 8, None, "as implemented, archives of 7 entries, every order"),
                  ("C09_mc_code_big.cfg", 8, None, "as implemented, an archive of 8 entries (index of 2 images), every order"),
-                 ("C09_sim_big.cfg", 4, "sim", "as implemented, all archives of 8 entries, 20000 random orders"),
+                 ("C09_sim_big.cfg", 4, "sim", "as implemented, all archives of 8 entries, 12000 random orders"),
                  ("C09_live.cfg", 4, None, "termination (liveness) on the smallest archives")]
 
     def mc_run(r):
@@ -106,7 +106,7 @@ def run(ctx):
                 raise vlib.ToolError("TarImport.tla no longer shows: %s; update spec, finding and check together" % expect)
             return None
         if expect == "sim":
-            return ctx.tlc("TarImportMC", cfg, workers=workers, timeout=3000, label=label, simulate="num=5000", depth=200,
+            return ctx.tlc("TarImportMC", cfg, workers=workers, timeout=3000, label=label, simulate="num=3000", depth=200,
                            extra=["-seed", str(ctx.seed)])
         return ctx.tlc("TarImportMC", cfg, workers=workers, timeout=3000, label=label)
     with concurrent.futures.ThreadPoolExecutor(max_workers=3 if thorough else 5) as ex:
@@ -302,7 +302,7 @@ def run(ctx):
             sig = "export:%s:%s" % (clause, g)
             what = "%s (block %s%s)" % (detail, b["block"], ", export error: " + b["meta"]["export_error"]
                                         if b.get("meta", {}).get("export_error") else "")
-            ctx.report(sig, what, {"block": b["block"], "lines": [{k: v for k, v in x.items() if k not in ("od", "os", "ep", "ec", "er", "ei")}
+            ctx.report(sig, what, {"block": b["block"], "lines": [{k: v for k, v in x.items() if k not in ("od", "os", "oa", "oh", "ep", "ec", "er", "ei")}
                                                                    for x in b["lines"]]})
             continue
         rejected_ids.add(t["id"])
@@ -314,7 +314,7 @@ def run(ctx):
         what = "%s; scenario %s (%s -> %s, gzip=%s%s)%s" % (
             detail, t["id"], scn.get("src"), scn.get("tgt"), scn.get("gzip"),
             ", selection " + sel if sel != "def" else "", ("; ImageImport: " + msg[:300]) if msg else "")
-        small = {k: v for k, v in e.items() if k not in ("od", "os")}
+        small = {k: v for k, v in e.items() if k not in ("od", "os", "oa", "oh")}
         ctx.report(sig, what, {"scenario": scn, "block": b["block"], "rejected_event": small, "meta": t["meta"],
                                "cmd": "tools/check C09 --replay <this file>"})
 
@@ -384,7 +384,7 @@ def run(ctx):
             i = next((i for i, d in enumerate(e["od"]) if d != e["top"]), None)
             if i is None:
                 return None
-            del e["od"][i], e["os"][i]
+            del e["od"][i], e["os"][i], e["oa"][i], e["oh"][i]
             return lines + tl
 
         def wrong_top(lines, tl):
@@ -424,7 +424,7 @@ def run(ctx):
     for b, t in traces[:1] + traces[-1:]:
         sample.append({"id": t["id"], "scenario": {k: t["scn"][k] for k in ("sid", "src", "tgt", "gzip", "xref")},
                        "arch": [("/".join(e["name"]), e["kind"]) for e in t["scn"]["arch"]],
-                       "events": [{k: v for k, v in e.items() if k not in ("od", "os")} for e in t["events"]], "meta": t["meta"]})
+                       "events": [{k: v for k, v in e.items() if k not in ("od", "os", "oa", "oh")} for e in t["events"]], "meta": t["meta"]})
     cov = {
         "states": states, "transitions": trans,
         "traces_validated_against_impl": accepted,
